@@ -6,27 +6,68 @@ from hypothesis import strategies as st
 from vp import gen, refop
 from vp.framework import Violation
 
-RULE = ("For each of the 7 coarsening patterns (0 = full, 1..6 semi) a fine "
-        "grid is generated whose coarsened directions have an even number "
-        ">=4 of cells (2..7 otherwise), with uniform/stretched/random widths, "
-        "real or complex fields and any anisotropy case.  The FULL fine edge "
+RULE = ("transfer: for each of the 7 coarsening patterns (0 = full, 1..6 "
+        "semi) a fine grid is generated whose coarsened directions have an "
+        "even number >=4 of cells (2..7 otherwise), with uniform/stretched/"
+        "random widths, real or complex fields, any anisotropy case, with or "
+        "without mu_r/epsilon_r (genuinely complex eta).  The FULL fine edge "
         "basis goes through solver.restriction -> matrix R and the FULL "
         "coarse edge basis through solver.prolongation -> matrix P; oracles: "
-        "R[int_c,int_f] == P[int_f,int_c]^T, P == checker's reference "
-        "(piecewise constant along / linear across, from node coordinates), "
-        "P >= 0, interior rows sum to 1, prolongation adds and leaves "
-        "boundary edges bit-identical, coarse nodes = every second node, "
-        "coarse eta/zeta = sum of children, coarse field zero and of source "
-        "dtype, core.restrict == its py_func.  Non-trivial = non-uniform "
+        "R[int_c,int_f] == P[int_f,int_c]^T, R[int_c,bnd_f] == 0, P == "
+        "checker's reference (piecewise constant along / linear across, from "
+        "node coordinates), P >= 0, interior rows sum to 1, prolongation adds "
+        "and leaves boundary edges bit-identical (random fields of amplitude "
+        "1e-200..1e100; coarse field optionally the Field/BaseMesh object "
+        "returned by restriction), coarse nodes = every second node, coarse "
+        "eta/zeta = sum of children, coarse field zero and of source dtype, "
+        "core.restrict == its py_func, all inputs (model arrays, source, "
+        "residual, coarse field) bit-identical after the calls; optionally a "
+        "second grid of the SAME shape but other widths is sent through "
+        "restriction/prolongation in between (order A,B,A) and compared with "
+        "its own reference.  levels: every (pattern, anisotropy case) pair x "
+        "larger shapes (coarsened 4..32, others 2..33, optionally UTM-scale "
+        "origin): up to 3 successive restrictions feeding emg3d's own coarse "
+        "model / coarse Field back in (pattern per level = the directions "
+        "that can still be halved), per level the same node/model/field "
+        "oracles through the sparse reference, model also against the block "
+        "sums of the level-0 arrays; then prolongation back down level by "
+        "level through emg3d's coarse Fields.  Non-trivial = non-uniform "
         "widths; distinct by (pattern, shape, seed).")
 ASSUMPTIONS = [
     "reference prolongation built from node coordinates with 1-D linear "
     "interpolation / piecewise-constant Kronecker factors (vp code, no "
     "emg3d import)",
-    "tolerance 1e4 eps relative to row scale",
+    "tolerance 1e4 eps relative to row scale (transfer); in 'levels' "
+    "multiplied by 1 + max_i max(|x_i|,|x_i+1|)/h_i, the conditioning of "
+    "an interpolation weight computed from absolute coordinates (large "
+    "stretched grids, UTM origins)",
+    "R[int_c, bnd_f] == 0 is demanded because prolongation never touches "
+    "boundary edges (zero rows of P) and R acts as P^T on interior edges; "
+    "rows of R for coarse BOUNDARY edges are not constrained",
+    "a pattern is applied only to directions with an even number >= 4 of "
+    "cells (what solver._current_sc_dir selects); the per-level pattern is "
+    "computed by the checker, np.int64 pattern codes are accepted input",
+    "propagation of the frequency to the coarse fields is not in the "
+    "property text and not asserted",
 ]
 SHARDS = {'quick': 1, 'thorough': 16}
 C_EPS = 1e4*np.finfo(float).eps
+PARAMS = ('eta_x', 'eta_y', 'eta_z', 'zeta')
+
+# New generator branches (set to False to silence one of them).
+ENABLE_EPSR = True        # genuinely complex eta (epsilon_r)
+ENABLE_AMPLITUDE = True   # field amplitudes 1e-200 .. 1e100
+ENABLE_SECOND_GRID = True  # A,B,A call order with a same-shape grid
+ENABLE_PROVENANCE = True  # coarse Field object returned by restriction
+ENABLE_NPINT = True       # pattern code as numpy integer
+ENABLE_UTM = True         # UTM-scale origin (levels)
+
+_AMP = st.one_of(st.just(0.0), st.floats(-30.0, 0.0),
+                 st.floats(-200.0, 100.0))
+
+
+def _opt(flag, strategy, default):
+    return strategy if flag else st.just(default)
 
 
 def spec_strategy(sc):
@@ -39,10 +80,15 @@ def spec_strategy(sc):
     return st.fixed_dictionaries({
         'sc': st.just(sc),
         'grid': gen.grid_spec(counts),
-        'model': gen.model_spec(epsr=False),
+        'model': gen.model_spec(epsr=ENABLE_EPSR),
         'laplace': st.booleans(),
         'fseed': gen.SEED,
         'pyfunc': st.integers(0, 5).map(lambda k: k == 0),
+        'lgamp': _opt(ENABLE_AMPLITUDE, _AMP, 0.0),
+        'second': _opt(ENABLE_SECOND_GRID, st.one_of(st.none(), gen.SEED),
+                       None),
+        'prov': _opt(ENABLE_PROVENANCE, st.booleans(), False),
+        'npint': _opt(ENABLE_NPINT, st.booleans(), False),
     }).filter(lambda s: _nedges(s['grid']['n']) <= 2200)
 
 
@@ -91,24 +137,115 @@ def reference_P(nodes, shape, coars):
     return sp.diags(m.astype(float)) @ P
 
 
+def _coars_of(sc):
+    return (sc not in (1, 5, 6), sc not in (2, 4, 6), sc not in (3, 4, 5))
+
+
+_SC_OF = {(True, True, True): 0, (False, True, True): 1,
+          (True, False, True): 2, (True, True, False): 3,
+          (True, False, False): 4, (False, True, False): 5,
+          (False, False, True): 6}
+
+
+def _children_sum(p, coars):
+    rx, ry, rz = (2 if c else 1 for c in coars)
+    return sum(p[i::rx, j::ry, k::rz] for i in range(rx)
+               for j in range(ry) for k in range(rz))
+
+
+def _block_sum(p, f):
+    """Sum over blocks of f[0] x f[1] x f[2] cells."""
+    return sum(p[i::f[0], j::f[1], k::f[2]] for i in range(f[0])
+               for j in range(f[1]) for k in range(f[2]))
+
+
+def _snapshot(m):
+    return {nm: np.array(getattr(m, nm)) for nm in PARAMS}
+
+
+def _check_unchanged(m, snap, where):
+    for nm in PARAMS:
+        now = getattr(m, nm)
+        if now.shape != snap[nm].shape or now.dtype != snap[nm].dtype or \
+                not np.array_equal(now, snap[nm]):
+            raise Violation(f"input_modified:model:{nm}",
+                            f"{nm} of the input model changed during "
+                            f"restriction ({where})")
+
+
+def _check_field_unchanged(f, before, name, where):
+    if not np.array_equal(f.field, before):
+        raise Violation(f"input_modified:{name}",
+                        f"{name} changed during {where}")
+
+
+def _check_coarse_model(cm, snap, coars, sig, what):
+    """cm's parameters == sum of the children in snap (1e-13 rel)."""
+    for nm in PARAMS:
+        ref = _children_sum(snap[nm], coars)
+        got = getattr(cm, nm)
+        if got.shape != ref.shape or np.any(
+                np.abs(got-ref) > 1e-13*np.abs(ref)):
+            raise Violation(f"coarse_model:{nm}:{sig}",
+                            f"coarse {nm} is not the sum of its children "
+                            f"({what})")
+        if abs(got.sum()-snap[nm].sum()) > 1e-12*np.abs(snap[nm]).sum():
+            raise Violation(f"coarse_model_total:{nm}:{sig}",
+                            f"total not conserved ({what})")
+
+
+def _check_coarse_fields(csf, cef, dt, zero_res, where=''):
+    for nm, f in (('csfield', csf), ('cefield', cef)):
+        if f.field.dtype != dt:
+            raise Violation(f"coarse_dtype:{nm}",
+                            f"{f.field.dtype} vs {dt} {where}")
+        if (zero_res or nm == 'cefield') and np.any(f.field != 0):
+            raise Violation(f"coarse_nonzero:{nm}",
+                            f"coarse field not zero {where}")
+
+
+def _fill(field, seed, salt, amp, pec):
+    """Random values into an EXISTING Field object (keeps its provenance)."""
+    rng = gen.rng_of(seed, salt)
+    v = rng.standard_normal(field.field.size)
+    if np.iscomplexobj(field.field):
+        v = v + 1j*rng.standard_normal(field.field.size)
+    field.field[:] = v*amp
+    if pec:
+        gen.pec_zero(field.fx, field.fy, field.fz)
+
+
+def _amp_class(lg):
+    if lg == 0:
+        return 'amp=1'
+    if lg < -30:
+        return 'amp<1e-30'
+    if lg > 30:
+        return 'amp>1e30'
+    return 'amp=1e-30..1e30'
+
+
 def case_transfer(spec, rec):
     import emg3d
     from emg3d import solver, core
     sc = spec['sc']
+    sca = np.int64(sc) if spec.get('npint', False) else sc
     h, origin = gen.build_widths(spec['grid'])
     grid = emg3d.TensorMesh(h, origin=origin)
     shape = tuple(int(n) for n in grid.shape_cells)
-    coars = (sc not in (1, 5, 6), sc not in (2, 4, 6), sc not in (3, 4, 5))
+    coars = _coars_of(sc)
     freq = -1.3 if spec['laplace'] else 1.3
+    amp = float(10.0**spec.get('lgamp', 0.0))
     model, _ = gen.build_model(grid, spec['model'], 1.0)
     case = spec['model']['case']
     sfield = emg3d.Field(grid, frequency=freq)
     dt = sfield.field.dtype
     vm = emg3d.models.VolumeModel(model, sfield)
+    snap = _snapshot(vm)
     ne = grid.n_edges
 
     zero_res = emg3d.Field(grid, frequency=freq)
-    cmodel, csf0, cef0 = solver.restriction(vm, sfield, zero_res, sc)
+    cmodel, csf0, cef0 = solver.restriction(vm, sfield, zero_res, sca)
     cg = cmodel.grid
     cshape = tuple(int(n) for n in cg.shape_cells)
     exp_cshape = tuple(n//2 if c else n for n, c in zip(shape, coars))
@@ -125,30 +262,11 @@ def case_transfer(spec, rec):
             raise Violation(f"coarse_nodes:sc{sc}:dir{d}",
                             "coarse nodes are not every second fine node")
     # coarse fields
-    for nm, f in (('csfield', csf0), ('cefield', cef0)):
-        if f.field.dtype != dt:
-            raise Violation(f"coarse_dtype:{nm}", f"{f.field.dtype} vs {dt}")
-        if np.any(f.field != 0):
-            raise Violation(f"coarse_nonzero:{nm}",
-                            "coarse field of zero residual not zero")
+    _check_coarse_fields(csf0, cef0, dt, True)
 
-    # coarse model = sum of children
-    def children_sum(p):
-        rx, ry, rz = (2 if c else 1 for c in coars)
-        return sum(p[i::rx, j::ry, k::rz] for i in range(rx)
-                   for j in range(ry) for k in range(rz))
-    for nm in ('eta_x', 'eta_y', 'eta_z', 'zeta'):
-        ref = children_sum(getattr(vm, nm))
-        got = getattr(cmodel, nm)
-        if got.shape != ref.shape or np.any(
-                np.abs(got-ref) > 1e-13*np.abs(ref)):
-            raise Violation(f"coarse_model:{nm}:sc{sc}",
-                            f"coarse {nm} is not the sum of its children "
-                            f"(case {case})")
-        if abs(got.sum()-getattr(vm, nm).sum()) > 1e-12*abs(
-                getattr(vm, nm)).sum():
-            raise Violation(f"coarse_model_total:{nm}:sc{sc}",
-                            "total not conserved")
+    # coarse model = sum of children (of the values BEFORE the call)
+    _check_unchanged(vm, snap, 'first call')
+    _check_coarse_model(cmodel, snap, coars, f"sc{sc}", f"case {case}")
 
     # --- R: full fine basis -------------------------------------------
     nce = csf0.field.size
@@ -156,13 +274,17 @@ def case_transfer(spec, rec):
     r = emg3d.Field(grid, frequency=freq)
     for j in range(ne):
         r.field[j] = 1.0
-        _, csf, _ = solver.restriction(vm, sfield, r, sc)
+        _, csf, _ = solver.restriction(vm, sfield, r, sca)
         col = csf.field
         if np.iscomplexobj(col) and np.any(col.imag != 0):
             raise Violation("restriction_not_real_linear",
                             "real basis residual gives complex restriction")
         R[:, j] = col.real
         r.field[j] = 0.0
+    _check_unchanged(vm, snap, 'basis loop')
+    if np.any(sfield.field != 0):
+        raise Violation("input_modified:sfield",
+                        "source field changed during restriction")
     # --- P: full coarse basis ------------------------------------------
     cgT = emg3d.TensorMesh(cg.h, cg.origin)
     P = np.zeros((ne, nce))
@@ -170,7 +292,7 @@ def case_transfer(spec, rec):
     for J in range(nce):
         c.field[J] = 1.0
         e = emg3d.Field(grid, frequency=freq)
-        solver.prolongation(e, c, sc)
+        solver.prolongation(e, c, sca)
         P[:, J] = e.field.real
         c.field[J] = 0.0
     mf = refop.interior_mask(*shape)
@@ -183,9 +305,10 @@ def case_transfer(spec, rec):
         comp = 'xyz'[int(i >= grid.n_edges_x) +
                      int(i >= grid.n_edges_x+grid.n_edges_y)]
         bnd = 'interior' if mf[i] else 'boundary'
+        cb = 'interior' if mc[J] else 'boundary'
         raise Violation(f"prolongation_mismatch:sc{sc}:e{comp}:{bnd}",
                         f"P[{i},{J}]={P[i, J]:.6g} ref {Pref[i, J]:.6g}; "
-                        f"shape {shape}")
+                        f"shape {shape}; column of a coarse {cb} edge")
     if P.min() < -C_EPS:
         raise Violation(f"prolongation_negative:sc{sc}", f"min {P.min()}")
     rs = P[mf].sum(axis=1)
@@ -200,52 +323,325 @@ def case_transfer(spec, rec):
                      int(ci >= cgT.n_edges_x+cgT.n_edges_y)]
         raise Violation(f"restriction_not_transpose:sc{sc}:e{comp}",
                         f"max |R - P^T| = {Dt.max():.3e}; shape {shape}")
+    # P never touches boundary fine edges -> P^T has zero columns there
+    Db = np.abs(R[np.ix_(mc, ~mf)])
+    if Db.size and np.any(Db > C_EPS):
+        I, j = np.unravel_index(np.argmax(Db), Db.shape)
+        raise Violation(f"restriction_uses_boundary:sc{sc}",
+                        f"interior coarse edge {np.flatnonzero(mc)[I]} takes "
+                        f"{Db.max():.3e} x residual of boundary fine edge "
+                        f"{np.flatnonzero(~mf)[j]}; shape {shape}")
 
     # --- additivity / boundary untouched / complex linearity -------------
-    e0 = gen.random_field(grid, spec['fseed'], freq, salt=21, pec=False)
-    cc = gen.random_field(cgT, spec['fseed'], freq, salt=22, pec=False)
+    e0 = gen.random_field(grid, spec['fseed'], freq, salt=21, pec=False,
+                          scale=amp)
+    cc = gen.random_field(cgT, spec['fseed'], freq, salt=22, pec=False,
+                          scale=amp)
+    if spec.get('prov', False):
+        # the coarse Field object (BaseMesh grid, dtype= construction) that
+        # restriction returned, as multigrid hands it to prolongation
+        rec.cls('coarse_field=from_restriction')
+        cef0.field[:] = cc.field
+        cc = cef0
     before = e0.field.copy()
-    solver.prolongation(e0, cc, sc)
+    ccb = cc.field.copy()
+    solver.prolongation(e0, cc, sca)
+    _check_field_unchanged(cc, ccb, 'cefield', 'prolongation')
     inc = e0.field - before
-    ref = Pref @ cc.field
-    scl = np.abs(Pref) @ np.abs(cc.field) + np.abs(before)
+    ref = Pref @ ccb
+    scl = np.abs(Pref) @ np.abs(ccb) + np.abs(before)
     if np.any(np.abs(inc-ref) > C_EPS*(scl+scl.max()*1e-3)):
         raise Violation(f"prolongation_not_additive:sc{sc}",
-                        "prolongation(e, c) != e + P c for random e, c")
+                        "prolongation(e, c) != e + P c for random e, c "
+                        f"(amplitude 1e{spec.get('lgamp', 0.0):.0f})")
     if np.any(e0.field[~mf] != before[~mf]):
         raise Violation(f"prolongation_touches_boundary:sc{sc}",
                         "tangential boundary edges modified")
-    rr = gen.random_field(grid, spec['fseed'], freq, salt=23, pec=False)
-    _, csf, _ = solver.restriction(vm, sfield, rr, sc)
+    rr = gen.random_field(grid, spec['fseed'], freq, salt=23, pec=False,
+                          scale=amp)
+    rrb = rr.field.copy()
+    _, csf, _ = solver.restriction(vm, sfield, rr, sca)
+    _check_field_unchanged(rr, rrb, 'residual', 'restriction')
     ref = R @ rr.field
     scl = np.abs(R) @ np.abs(rr.field)
     if np.any(np.abs(csf.field-ref) > C_EPS*(scl+scl.max()*1e-3)):
         raise Violation(f"restriction_not_linear:sc{sc}",
-                        "restriction(random) != R @ random")
+                        "restriction(random) != R @ random "
+                        f"(amplitude 1e{spec.get('lgamp', 0.0):.0f})")
 
     # --- compiled vs python source ---------------------------------------
     if spec['pyfunc']:
-        rec.cls('pyfunc')
-        wx, wy, wz = solver._get_restriction_weights(vm.grid, cg, sc)
-        a = emg3d.Field(cgT, frequency=freq)
-        b = emg3d.Field(cgT, frequency=freq)
-        core.restrict(a.fx, a.fy, a.fz, rr.fx, rr.fy, rr.fz, wx, wy, wz, sc)
-        core.restrict.py_func(b.fx, b.fy, b.fz, rr.fx, rr.fy, rr.fz,
-                              wx, wy, wz, sc)
-        if np.any(np.abs(a.field-b.field) > C_EPS*(scl+scl.max()*1e-3)):
-            raise Violation(f"restrict_jit_vs_pyfunc:sc{sc}",
-                            f"max {np.abs(a.field-b.field).max():.3e}")
+        if not (hasattr(solver, '_get_restriction_weights') and
+                hasattr(core.restrict, 'py_func')):
+            rec.cls('pyfunc_unavailable')   # private API gone: not decided
+        else:
+            rec.cls('pyfunc')
+            wx, wy, wz = solver._get_restriction_weights(vm.grid, cg, sc)
+            a = emg3d.Field(cgT, frequency=freq)
+            b = emg3d.Field(cgT, frequency=freq)
+            core.restrict(a.fx, a.fy, a.fz, rr.fx, rr.fy, rr.fz,
+                          wx, wy, wz, sc)
+            core.restrict.py_func(b.fx, b.fy, b.fz, rr.fx, rr.fy, rr.fz,
+                                  wx, wy, wz, sc)
+            if np.any(np.abs(a.field-b.field) > C_EPS*(scl+scl.max()*1e-3)):
+                raise Violation(f"restrict_jit_vs_pyfunc:sc{sc}",
+                                f"max {np.abs(a.field-b.field).max():.3e}")
+
+    # --- second grid, same shape, other widths: order A, B, A -------------
+    second = spec.get('second', None)
+    if second is not None:
+        rec.cls('second_grid')
+        _second_grid(spec, rec, second, sc, sca, freq, amp, coars, shape,
+                     cshape, mf, mc)
+        # ... and A again
+        e1 = gen.random_field(grid, spec['fseed'], freq, salt=27, pec=False,
+                              scale=amp)
+        c1 = gen.random_field(cgT, spec['fseed'], freq, salt=28, pec=False,
+                              scale=amp)
+        before = e1.field.copy()
+        solver.prolongation(e1, c1, sca)
+        ref = Pref @ c1.field
+        scl = np.abs(Pref) @ np.abs(c1.field) + np.abs(before)
+        if np.any(np.abs(e1.field-before-ref) > C_EPS*(scl+scl.max()*1e-3)):
+            raise Violation(f"prolongation_depends_on_history:sc{sc}",
+                            "prolongation on grid A differs after a call "
+                            "with a same-shape grid B")
+        r1 = gen.random_field(grid, spec['fseed'], freq, salt=29, pec=False,
+                              scale=amp)
+        cm1, csf, _ = solver.restriction(vm, sfield, r1, sca)
+        ref = R @ r1.field
+        scl = np.abs(R) @ np.abs(r1.field)
+        if np.any(np.abs(csf.field-ref) > C_EPS*(scl+scl.max()*1e-3)):
+            raise Violation(f"restriction_depends_on_history:sc{sc}",
+                            "restriction on grid A differs after a call "
+                            "with a same-shape grid B")
+        _check_coarse_model(cm1, snap, coars, f"sc{sc}",
+                            f"case {case}, after grid B")
+    _check_unchanged(vm, snap, 'end of case')
 
     kind = spec['grid']['kind']
     rec.cls(f"sc={sc}", f"widths={kind}", f"laplace={spec['laplace']}",
-            f"case={case}")
+            f"case={case}", f"epsr={spec['model'].get('epsr', False)}",
+            _amp_class(spec.get('lgamp', 0.0)),
+            f"npint={spec.get('npint', False)}")
     if kind != 'uniform':
         rec.nt([sc, list(shape), spec['grid']['seed']])
     rec.note({'sc': sc, 'shape': list(shape), 'coarse': list(cshape),
               'fine_edges': int(ne), 'coarse_edges': int(nce)})
 
 
-SUBS = {'transfer': case_transfer}
+def _second_grid(spec, rec, second, sc, sca, freq, amp, coars, shape, cshape,
+                 mf, mc):
+    """Grid B: same shape as A, random widths from another seed; one
+    restriction and one prolongation compared with B's own reference."""
+    import emg3d
+    from emg3d import solver
+    gs = dict(spec['grid'], seed=second, kind='random')
+    h2, origin2 = gen.build_widths(gs)
+    gridB = emg3d.TensorMesh(h2, origin=origin2)
+    nodesB = [gridB.nodes_x, gridB.nodes_y, gridB.nodes_z]
+    modelB, _ = gen.build_model(gridB, dict(spec['model'], seed=second), 1.0)
+    sfB = emg3d.Field(gridB, frequency=freq)
+    vmB = emg3d.models.VolumeModel(modelB, sfB)
+    snapB = _snapshot(vmB)
+    PB = reference_P(nodesB, shape, coars).tocsr()
+    rB = gen.random_field(gridB, second, freq, salt=24, pec=False, scale=amp)
+    cmB, csfB, cefB = solver.restriction(vmB, sfB, rB, sca)
+    _check_coarse_model(cmB, snapB, coars, f"sc{sc}", "grid B")
+    ref = PB.T @ rB.field
+    scl = np.abs(PB).T @ np.abs(rB.field)
+    bad = np.abs(csfB.field-ref) > C_EPS*(scl+scl.max()*1e-3)
+    if np.any(bad[mc]):
+        raise Violation(f"restriction_depends_on_history:sc{sc}",
+                        "restriction on a same-shape grid B (other widths) "
+                        "is not the transpose of B's reference prolongation")
+    _fill(cefB, second, 25, amp, False)
+    eB = gen.random_field(gridB, second, freq, salt=26, pec=False, scale=amp)
+    before = eB.field.copy()
+    solver.prolongation(eB, cefB, sca)
+    ref = PB @ cefB.field
+    scl = np.abs(PB) @ np.abs(cefB.field) + np.abs(before)
+    if np.any(np.abs(eB.field-before-ref) > C_EPS*(scl+scl.max()*1e-3)):
+        raise Violation(f"prolongation_depends_on_history:sc{sc}",
+                        "prolongation on a same-shape grid B (other widths) "
+                        "differs from B's reference")
+
+
+# ======================================================================
+# levels: successive restrictions / prolongations through emg3d's own
+# coarse objects, larger shapes, every (pattern, case) pair
+# ======================================================================
+def levels_strategy(sc, case):
+    even = [4, 6, 8, 10, 12, 16, 20, 24, 32]
+    other = [2, 3, 4, 5, 6, 7, 8, 9, 11, 12, 16, 17, 24, 33]
+    counts = [even if c else other for c in _coars_of(sc)]
+    return st.fixed_dictionaries({
+        'sc': st.just(sc),
+        'grid': gen.grid_spec(counts),
+        'model': gen.model_spec(cases=[case], epsr=ENABLE_EPSR),
+        'laplace': st.booleans(),
+        'fseed': gen.SEED,
+        'levels': st.integers(1, 3),
+        'lgamp': _opt(ENABLE_AMPLITUDE, _AMP, 0.0),
+        'pec': st.booleans(),
+        'utm': _opt(ENABLE_UTM, st.booleans(), False),
+        'npint': _opt(ENABLE_NPINT, st.booleans(), False),
+    }).filter(lambda s: int(np.prod(s['grid']['n'])) <= MAX_CELLS)
+
+
+MAX_CELLS = 9000
+
+
+def _kappa(nodes):
+    """Conditioning of interpolation weights computed from coordinates."""
+    k = 0.0
+    for x in nodes:
+        a = np.maximum(np.abs(x[:-1]), np.abs(x[1:]))
+        k = max(k, float(np.max(a/np.diff(x))))
+    return k
+
+
+def case_levels(spec, rec):
+    import emg3d
+    from emg3d import solver
+    sc = spec['sc']
+    h, origin = gen.build_widths(spec['grid'])
+    if spec.get('utm', False):
+        origin = origin + np.array([5e5, 6e6, 0.0])
+    grid = emg3d.TensorMesh(h, origin=origin)
+    shape = tuple(int(n) for n in grid.shape_cells)
+    freq = -1.3 if spec['laplace'] else 1.3
+    amp = float(10.0**spec.get('lgamp', 0.0))
+    pec = spec['pec']
+    case = spec['model']['case']
+    model, _ = gen.build_model(grid, spec['model'], 1.0)
+    sfield = emg3d.Field(grid, frequency=freq)
+    dt = sfield.field.dtype
+    vm = emg3d.models.VolumeModel(model, sfield)
+    snap0 = _snapshot(vm)
+    nodes = [np.array(grid.nodes_x), np.array(grid.nodes_y),
+             np.array(grid.nodes_z)]
+    tol = C_EPS*(1.0 + _kappa(nodes))
+
+    res = gen.random_field(grid, spec['fseed'], freq, salt=31, pec=pec,
+                           scale=amp)
+    cur_m, cur_sf, cur_res = vm, sfield, res
+    cur_nodes, cur_shape = nodes, shape
+    fac = [1, 1, 1]
+    stack = []      # per level: (sc_l, Pref, interior mask fine, target)
+    target = emg3d.Field(grid, frequency=freq)
+    patterns = []
+    for lev in range(1, spec['levels']+1):
+        coars = tuple(bool(c and n % 2 == 0 and n >= 4)
+                      for c, n in zip(_coars_of(sc), cur_shape))
+        if not any(coars):
+            break
+        sc_l = _SC_OF[coars]
+        patterns.append(sc_l)
+        arg = np.int64(sc_l) if spec.get('npint', False) else sc_l
+        where = f"level {lev}, pattern {sc_l}, shape {cur_shape}"
+        snap_in = _snapshot(cur_m)
+        res_in = cur_res.field.copy()
+        sf_in = cur_sf.field.copy()
+        cm, csf, cef = solver.restriction(cur_m, cur_sf, cur_res, arg)
+        _check_unchanged(cur_m, snap_in, where)
+        _check_field_unchanged(cur_res, res_in, 'residual',
+                               'restriction, ' + where)
+        _check_field_unchanged(cur_sf, sf_in, 'sfield',
+                               'restriction, ' + where)
+        # grid
+        cshape = tuple(int(n) for n in cm.grid.shape_cells)
+        exp = tuple(n//2 if c else n for n, c in zip(cur_shape, coars))
+        if cshape != exp:
+            raise Violation(f"coarse_shape:sc{sc_l}",
+                            f"{cur_shape} -> {cshape}, expected {exp} "
+                            f"({where})")
+        fac = [f*2 if c else f for f, c in zip(fac, coars)]
+        new_nodes = [x[::2] if c else x for x, c in zip(cur_nodes, coars)]
+        got_nodes = [cm.grid.nodes_x, cm.grid.nodes_y, cm.grid.nodes_z]
+        for d in range(3):
+            ext = max(nodes[d][-1]-nodes[d][0], np.abs(nodes[d]).max())
+            if got_nodes[d].shape != new_nodes[d].shape or np.any(
+                    np.abs(got_nodes[d]-new_nodes[d]) > 1e-12*ext):
+                raise Violation(f"coarse_nodes:sc{sc_l}:dir{d}",
+                                f"coarse nodes are not every {fac[d]}-th "
+                                f"node of the finest grid ({where})")
+        # fields
+        _check_coarse_fields(csf, cef, dt, False, where)
+        # model: children of the level above and blocks of level 0
+        _check_coarse_model(cm, snap_in, coars, f"sc{sc_l}",
+                            f"case {case}, {where}")
+        for nm in PARAMS:
+            ref = _block_sum(snap0[nm], fac)
+            got = getattr(cm, nm)
+            if got.shape != ref.shape or np.any(
+                    np.abs(got-ref) > 1e-12*np.abs(ref)):
+                raise Violation(f"coarse_model_levels:{nm}",
+                                f"{nm} on level {lev} is not the sum of the "
+                                f"{fac} finest-grid cells (case {case}, "
+                                f"patterns {patterns})")
+        # restricted residual == Pref^T residual on interior coarse edges
+        Pref = reference_P(cur_nodes, cur_shape, coars).tocsr()
+        mc = refop.interior_mask(*cshape)
+        ref = Pref.T @ res_in
+        scl = np.abs(Pref).T @ np.abs(res_in)
+        bad = np.abs(csf.field-ref) > tol*(scl+scl.max()*1e-3)
+        if np.any(bad[mc]):
+            i = int(np.flatnonzero(bad & mc)[0])
+            raise Violation(f"restriction_not_transpose:sc{sc_l}:levels",
+                            f"coarse edge {i}: {csf.field[i]} vs P^T r = "
+                            f"{ref[i]} ({where}, amplitude "
+                            f"1e{spec.get('lgamp', 0.0):.0f})")
+        stack.append((sc_l, arg, Pref, refop.interior_mask(*cur_shape),
+                      target, where))
+        target = cef
+        cur_m, cur_sf, cur_res = cm, csf, csf
+        cur_nodes, cur_shape = new_nodes, cshape
+
+    nlev = len(stack)
+    # --- back down: prolongation through emg3d's own coarse Fields --------
+    if nlev:
+        c = target          # cefield returned by the deepest restriction
+        _fill(c, spec['fseed'], 33, amp, pec)
+        for k in range(nlev-1, -1, -1):
+            sc_l, arg, Pref, mf, tgt, where = stack[k]
+            _fill(tgt, spec['fseed'], 40+k, amp, pec)
+            before = tgt.field.copy()
+            c_in = c.field.copy()
+            solver.prolongation(tgt, c, arg)
+            _check_field_unchanged(c, c_in, 'cefield',
+                                   'prolongation, ' + where)
+            ref = Pref @ c_in
+            scl = np.abs(Pref) @ np.abs(c_in) + np.abs(before)
+            if np.any(np.abs(tgt.field-before-ref) >
+                      tol*(scl+scl.max()*1e-3)):
+                raise Violation(f"prolongation_not_additive:sc{sc_l}:levels",
+                                "prolongation(e, c) != e + P c "
+                                f"({where}, amplitude "
+                                f"1e{spec.get('lgamp', 0.0):.0f})")
+            if np.any(tgt.field[~mf] != before[~mf]):
+                raise Violation(f"prolongation_touches_boundary:sc{sc_l}",
+                                f"tangential boundary edges modified "
+                                f"({where})")
+            c = tgt
+    _check_unchanged(vm, snap0, 'end of case')
+
+    kind = spec['grid']['kind']
+    rec.cls(f"sc={sc}", f"case={case}", f"levels={nlev}",
+            f"mixed_patterns={len(set(patterns)) > 1}",
+            f"widths={kind}", f"laplace={spec['laplace']}",
+            f"epsr={spec['model'].get('epsr', False)}",
+            _amp_class(spec.get('lgamp', 0.0)), f"pec={pec}",
+            f"utm={spec.get('utm', False)}",
+            f"npint={spec.get('npint', False)}",
+            f"maxn>=12={max(shape) >= 12}")
+    if kind != 'uniform' and nlev:
+        rec.nt([sc, case, list(shape), spec['grid']['seed']])
+    rec.note({'sc': sc, 'shape': list(shape), 'patterns': patterns,
+              'coarsest': list(cur_shape), 'tol': tol})
+
+
+SUBS = {'transfer': case_transfer, 'levels': case_levels}
 
 
 def run(ctx):
@@ -253,3 +649,7 @@ def run(ctx):
     for sc in range(7):
         ctx.explore('transfer', spec_strategy(sc), case_transfer,
                     ctx.n(8, 25), salt=sc)
+    for sc in range(7):
+        for ic, case in enumerate(gen.CASES):
+            ctx.explore('levels', levels_strategy(sc, case), case_levels,
+                        ctx.n(6, 20), salt=10*sc+ic)
